@@ -15,20 +15,33 @@ Fixpoint list_eqb (a b : list N) : bool :=
   | _, _ => false
   end.
 
-(* deterministic payload generator shared with the Python side:
-   x_{k+1} = (1103515245 * x_k + 12345) mod 2^31 ; octet_k = (x_{k+1} / 65536) mod 256 *)
+(* octet strings are written by the harness as one hexadecimal numeral: hx 3 0x0a0b0c = [10;11;12] *)
+Fixpoint hx_loop (n : nat) (v : N) (acc : list N) : list N :=
+  match n with
+  | O => acc
+  | S n' => hx_loop n' (N.shiftr v 8) (N.land v 255 :: acc)
+  end.
+Definition hx (n v : N) : list N := hx_loop (N.to_nat n) v [].
+
+(* deterministic payload generator shared with the Python side (xorshift32, bit operations only so that
+   vm_compute stays fast):  x ^= x << 13 (mod 2^32); x ^= x >> 17; x ^= x << 5 (mod 2^32); octet = x & 255 *)
+Definition m32 : N := 4294967295.
 Fixpoint pat_loop (n : nat) (x : N) : list N :=
   match n with
   | O => []
-  | S n' => let x' := (1103515245 * x + 12345) mod 2147483648 in (x' / 65536) mod 256 :: pat_loop n' x'
+  | S n' => let x1 := N.lxor x (N.land (N.shiftl x 13) m32) in
+            let x2 := N.lxor x1 (N.shiftr x1 17) in
+            let x3 := N.lxor x2 (N.land (N.shiftl x2 5) m32) in
+            N.land x3 255 :: pat_loop n' x3
   end.
 Definition pat (seed n : N) : list N := pat_loop (N.to_nat n) seed.
+(* 7-bit variant (valid UTF-8 for text messages) *)
+Definition apat (seed n : N) : list N := map (fun b => N.land b 127) (pat seed n).
 
-(* zlib.adler32 *)
+(* zlib.adler32 (sums reduced once at the end; same value) *)
 Definition adler32 (l : list N) : N :=
-  let '(a, b) := fold_left (fun (ab : N * N) x => let a' := (fst ab + x) mod 65521 in (a', (snd ab + a') mod 65521))
-                           l (1, 0) in
-  b * 65536 + a.
+  let '(a, b) := fold_left (fun (ab : N * N) x => let a' := fst ab + x in (a', snd ab + a')) l (1, 0) in
+  (b mod 65521) * 65536 + (a mod 65521).
 
 Inductive wdesc :=
 | WLit (l : list N)
@@ -50,7 +63,7 @@ Fixpoint writes_ok (ws : list (list N)) (ds : list wdesc) : bool :=
 Definition exn_eqb (a b : exn) : bool :=
   match a, b with
   | ExException, ExException | ExDisconnected, ExDisconnected | ExPayloadExceeded, ExPayloadExceeded
-  | ExAssertion, ExAssertion => true
+  | ExAssertion, ExAssertion | ExAttribute, ExAttribute => true
   | _, _ => false
   end.
 
@@ -106,7 +119,7 @@ Definition spec_case_ok (c : send_case) : bool :=
   match spec_run cfg [] SpGround ops with
   | None => true                                   (* not a legal application-level sequence: nothing claimed *)
   | Some (s, _, evs) =>
-      if spec_at_boundary s then
+      if spec_at_boundary s && apply_mask cfg then   (* the theorem's hypotheses *)
         match rfc_parse rc_any (wire cfg (ks_of keys) ops) with
         | WellFormed _ evs' o tail =>
             ev_eqb evs evs' && match tail with [] => true | _ => false end &&
